@@ -127,7 +127,8 @@ def c17Dec (args : List String) (impl : String) : String × String :=
                 let layout := bip276Payload { pfx := pfx, version := v, network := n, data := d }
                 let ck := hexChars ((H256d (layout.map fun c => UInt8.ofNat c.toNat)).take 4)
                 let lower (l : List Char) := l.map Char.toLower
-                if lower (txt.take layout.length) == layout && txt.drop layout.length == ck then
+                -- the prefix is returned as written (case and all); hex digits may be written in either case
+                if txt.take pfx.length == pfx && lower (txt.take layout.length) == lower layout && txt.drop layout.length == ck then
                   (if isScript && fieldD f "valid" != "1" then "false:validate-disagrees-with-decode" else "true")
                 else "false:accepted-malformed-or-bad-checksum"
               | _, _, _, _ => "false:shape")
